@@ -17,6 +17,12 @@ fn exec(t: &[String]) -> Option<String> {
     let (ty, line) = dec(t)?;
     let mut w = W::new();
     put_pres(&mut w, ty, &line);
+    // the same line as the only line of a Reader (the property also observes the reader's items); a line with
+    // CR or LF inside is several lines to a reader and stays with C04
+    if !line.is_empty() && !line.contains('\n') && !line.contains('\r') {
+        let (a, b) = reader_status(ty, &line);
+        w.s("rd").s(&a).s(&b);
+    }
     Some(w.join())
 }
 
@@ -59,6 +65,24 @@ fn gen(rng: &mut Rng, tier: Tier) -> Vec<Case> {
         for s in ["", "\t", "\t\t", "\t\t\t\t\t\t\t\t\t\t", "\u{1F9EC}", "chr1", "chr1\t", "\n", "chr1\t1\t2\n", ":", "-", "::--", "chr1:1-2-3", "chr1:1:2:3"] {
             push("boundary", ty, s.to_string());
         }
+        // long lines: a multi-byte character straddling every byte offset 1..200 (in a malformed line, in a valid
+        // line's name column, and in a trailing extra column)
+        {
+            let rec = gen_wf(rng, ty);
+            let valid = to_text(ty, &rec);
+            let cols: Vec<String> = valid.split('\t').map(|s| s.to_string()).collect();
+            let step = match tier { Tier::Quick => 7, Tier::Thorough => 1 };
+            let mut k = (rng.below(step) + 1) as usize;
+            while k <= 200 {
+                let wide = *rng.pick(&["\u{221e}", "\u{e9}", "\u{1F9EC}", "\u{67d3}"][..]);
+                let pad = "a".repeat(k);
+                push("boundary", ty, format!("{}{}{}", pad, wide, "b".repeat(8)));                               // one column: missing start
+                push("boundary", ty, format!("{}{}\t12\tx{}", pad, wide, wide));                              // invalid end, long chrom
+                push("boundary", ty, format!("{}\t{}{}z", valid, pad, wide));                                  // valid + long extra column
+                if cols.len() >= 3 { let mut c = cols.clone(); let last = c.len() - 1; c[last] = format!("{}{}", pad, wide); push("boundary", ty, c.join("\t")); } // last required column corrupted
+                k += step as usize;
+            }
+        }
         // random soup
         let nr = match tier { Tier::Quick => 60, Tier::Thorough => 1500 };
         for _ in 0..nr {
@@ -89,8 +113,8 @@ fn gen(rng: &mut Rng, tier: Tier) -> Vec<Case> {
 pub fn prop() -> PropDef {
     PropDef {
         id: "C12",
-        rule: "corpus, then for each of the 9 record types (GenomicRange, BED<3..6>, NarrowPeak, BroadPeak, BedGraph<i64>, BedGraph<f64>): valid lines of random records, every prefix of them (0..N columns), every single-column corruption drawn from 22 malformed tokens (empty, non-numeric, negative, fractional, > u64::MAX, padded, '+1', '007', bad strand, non-ASCII digits ...), trailing extra columns, empty string, lone separators, Unicode, random token soup; thorough adds ALL strings over {TAB,1,-,.,+,x} up to length 5 for every type. Non-trivial: the line must be rejected, or has extra columns. Distinct = distinct (type, line).",
-        observable: "str::parse::<T>(): Ok(fields) | Err(class of ParseError) | panic",
+        rule: "corpus, then for each of the 9 record types (GenomicRange, BED<3..6>, NarrowPeak, BroadPeak, BedGraph<i64>, BedGraph<f64>): valid lines of random records, every prefix of them (0..N columns), every single-column corruption drawn from 22 malformed tokens (empty, non-numeric, negative, fractional, > u64::MAX, padded, '+1', '007', bad strand, non-ASCII digits ...), trailing extra columns, empty string, lone separators, Unicode, random token soup, lines of 10-220 bytes with a 2-4-byte UTF-8 character at every byte offset; thorough adds ALL strings over {TAB,1,-,.,+,x} up to length 5 for every type. Non-trivial: the line must be rejected, or has extra columns. Distinct = distinct (type, line).",
+        observable: "str::parse::<T>(): Ok(fields) | Err(class of ParseError) | panic; and for the same line fed to Reader::records / into_records: one Ok item | one Err item | other count | panic",
         gen, exec, shrink, child: None,
     }
 }
